@@ -19,6 +19,7 @@ package scheduling
 //@ pure rmApart(rm *ReservationManager) bool = forall h1 string, h2 string {h1 in rm.reservations, h2 in rm.reservations} :: ((h1 in rm.reservations) && (h2 in rm.reservations) && h1 != h2) ==> rm.reservations[h1] != rm.reservations[h2]
 //@ pure rmNonNeg(rm *ReservationManager) bool = forall id string {rm.capacity[id]} :: rm.capacity[id] >= 0
 //@ pure rmKnown(rm *ReservationManager) bool = forall h string, id string {id in rm.reservations[h]} :: rmHeld(rm, h, id) ==> (id in rm.capacity)
+//@ pure rmInv(rm *ReservationManager) bool = rmMaps(rm) && rmSets(rm) && rmApart(rm) && rmNonNeg(rm) && rmKnown(rm)
 
 //@ func (*ReservationManager).HasReservation
 //@   prop C17
@@ -73,6 +74,9 @@ package scheduling
 //@   ensures [capacity] forall id string {rm.capacity[id]} :: rmCap(rm, id) == old(rmCap(rm, id)) - ((rmHeld(rm, hostname, id) && !old(rmHeld(rm, hostname, id))) ? 1 : 0)
 //@   ensures [keys] forall id string {id in rm.capacity} :: (id in rm.capacity) <==> old(id in rm.capacity)
 //@   ensures [others] forall h string, id string {id in rm.reservations[h]} :: h != hostname ==> (rmHeld(rm, h, id) <==> old(rmHeld(rm, h, id)))
+//@   ensures [sameset] old(hostname in rm.reservations) ==> ((hostname in rm.reservations) && rm.reservations[hostname] == old(rm.reservations[hostname]))
+//@   ensures [newset] (!old(hostname in rm.reservations) && (hostname in rm.reservations)) ==> fresh(rm.reservations[hostname])
+//@   ensures [otherhosts] forall h string {h in rm.reservations} :: h != hostname ==> ((h in rm.reservations) == old(h in rm.reservations) && rm.reservations[h] == old(rm.reservations[h]))
 //@   loop 1 invariant [maps] rmMaps(rm)
 //@   loop 1 invariant [sets] rmSets(rm)
 //@   loop 1 invariant [apart] rmApart(rm)
@@ -106,3 +110,110 @@ package scheduling
 //@   loop 1 invariant [capacity] forall id string {rm.capacity[id]} :: rmCap(rm, id) == old(rmCap(rm, id)) + ((old(rmHeld(rm, hostname, id)) && !rmHeld(rm, hostname, id)) ? 1 : 0)
 //@   loop 1 invariant [keys] forall id string {id in rm.capacity} :: (id in rm.capacity) <==> old(id in rm.capacity)
 //@   loop 1 invariant [others] forall h string, id string {id in rm.reservations[h]} :: h != hostname ==> (rmHeld(rm, h, id) <==> old(rmHeld(rm, h, id)))
+
+// ---- initialisation from the catalog ----
+// A catalog is well formed when every offering has a single capacity type, and every reserved offering a single
+// reservation id and a non-negative reservation capacity.
+//@ pure resOf(o *cloudprovider.Offering) bool = cloudprovider.ctype(o) == v1.CapacityTypeReserved
+//@ pure oCatOK(o *cloudprovider.Offering) bool = cloudprovider.ctOK(o) && (resOf(o) ==> (cloudprovider.ridOK(o) && o.ReservationCapacity >= 0))
+//@ pure ofsCatOK(ofs []*cloudprovider.Offering) bool = forall b int {ofs[b]} :: (0 <= b && b < len(ofs)) ==> oCatOK(ofs[b])
+//@ pure itsCatOK(its []*cloudprovider.InstanceType) bool = forall a int {its[a]} :: (0 <= a && a < len(its)) ==> (its[a] != nil && ofsCatOK(its[a].Offerings))
+//@ pure catOK(cat loc) bool = forall k string {k in cat} :: (k in cat) ==> itsCatOK(cat[k])
+// Every reserved offering among the first n has its id tracked with at most the offering's capacity.
+//@ pure ofsBound(c loc, ofs []*cloudprovider.Offering, n int) bool = forall b int {ofs[b]} :: (0 <= b && b < n && resOf(ofs[b])) ==> ((cloudprovider.rid(ofs[b]) in c) && c[cloudprovider.rid(ofs[b])] <= ofs[b].ReservationCapacity)
+//@ pure itsBound(c loc, its []*cloudprovider.InstanceType, n int) bool = forall a int {its[a]} :: (0 <= a && a < n) ==> ofsBound(c, its[a].Offerings, len(its[a].Offerings))
+// The tracked capacity of id is the capacity of one of the first n reserved offerings with that id (so together with
+// ofsBound: the minimum).
+//@ pure ofsAtt(c loc, ofs []*cloudprovider.Offering, n int, id string) bool = exists b int {ofs[b]} :: 0 <= b && b < n && resOf(ofs[b]) && cloudprovider.rid(ofs[b]) == id && c[id] == ofs[b].ReservationCapacity
+//@ pure itsAtt(c loc, its []*cloudprovider.InstanceType, n int, id string) bool = exists a int {its[a]} :: 0 <= a && a < n && ofsAtt(c, its[a].Offerings, len(its[a].Offerings), id)
+
+//@ func NewReservationManager
+//@   prop C17
+//@   nopanic
+//@   requires [wf] catOK(instanceTypes)
+//@   modifies nothing
+//@   ensures [fresh] fresh(result) && fresh(result.reservations) && fresh(result.capacity)
+//@   ensures [maps] rmMaps(result)
+//@   ensures [sets] rmSets(result)
+//@   ensures [apart] rmApart(result)
+//@   ensures [nonneg] rmNonNeg(result)
+//@   ensures [known] rmKnown(result)
+//@   ensures [noholders] forall h string {h in result.reservations} :: !(h in result.reservations)
+//@   ensures [bounded] forall k string {k in instanceTypes} :: (k in instanceTypes) ==> itsBound(result.capacity, instanceTypes[k], len(instanceTypes[k]))
+//@   ensures [attained] forall id string {id in result.capacity} :: (id in result.capacity) ==> (exists k string {k in instanceTypes} :: (k in instanceTypes) && itsAtt(result.capacity, instanceTypes[k], len(instanceTypes[k]), id))
+//@   loop 1 invariant [attained] forall id string {id in capacity} :: (id in capacity) ==> (exists k string {seen(k)} :: seen(k) && itsAtt(capacity, instanceTypes[k], len(instanceTypes[k]), id))
+//@   loop 2 invariant [attained] forall id string {id in capacity} :: (id in capacity) ==> ((loopentry(id in capacity) && capacity[id] == loopentry(capacity[id])) || itsAtt(capacity, its, $i + 1, id))
+//@   loop 3 invariant [attained] forall id string {id in capacity} :: (id in capacity) ==> ((loopentry(id in capacity) && capacity[id] == loopentry(capacity[id])) || ofsAtt(capacity, it.Offerings, $i + 1, id))
+//@   loop 1 invariant [nonneg] forall id string {capacity[id]} :: capacity[id] >= 0
+//@   loop 1 invariant [bounded] forall k string {seen(k)} :: seen(k) ==> itsBound(capacity, instanceTypes[k], len(instanceTypes[k]))
+//@   loop 2 invariant [nonneg] forall id string {capacity[id]} :: capacity[id] >= 0
+//@   loop 2 invariant [mono] forall id string {capacity[id]} {id in capacity} :: loopentry(id in capacity) ==> ((id in capacity) && capacity[id] <= loopentry(capacity[id]))
+//@   loop 2 invariant [bounded] itsBound(capacity, its, $i + 1)
+//@   loop 3 invariant [nonneg] forall id string {capacity[id]} :: capacity[id] >= 0
+//@   loop 3 invariant [mono] forall id string {capacity[id]} {id in capacity} :: loopentry(id in capacity) ==> ((id in capacity) && capacity[id] <= loopentry(capacity[id]))
+//@   loop 3 invariant [bounded] ofsBound(capacity, it.Offerings, $i + 1)
+
+// ---- C17: NodeClaim side ----
+// releaseReservedOfferings gives back exactly the reservations of this NodeClaim's hostname whose id occurs in
+// `current` but not in `updated`; one slot per id actually given back; nothing else changes.
+//@ pure ridInAll(ofs []*cloudprovider.Offering, id string) bool = ridIn(ofs, len(ofs), id)
+//@ func (*NodeClaim).releaseReservedOfferings
+//@   prop C17
+//@   nopanic
+//@   requires [rm] rmInv(n.reservationManager)
+//@   requires [wfcurrent] ofsOK(n.reservationManager, current)
+//@   requires [wfupdated] ofsOK(n.reservationManager, updated)
+//@   modifies n.reservationManager.capacity[:], n.reservationManager.reservations[n.hostname][:]
+//@   let rm = n.reservationManager
+//@   ensures [rm] rmInv(rm)
+//@   ensures [held] forall id string {id in rm.reservations[n.hostname]} :: rmHeld(rm, n.hostname, id) <==> (old(rmHeld(rm, n.hostname, id)) && !(ridInAll(current, id) && !ridInAll(updated, id)))
+//@   ensures [capacity] forall id string {rm.capacity[id]} :: rmCap(rm, id) == old(rmCap(rm, id)) + ((old(rmHeld(rm, n.hostname, id)) && !rmHeld(rm, n.hostname, id)) ? 1 : 0)
+//@   ensures [keys] forall id string {id in rm.capacity} :: (id in rm.capacity) <==> old(id in rm.capacity)
+//@   ensures [others] forall h string, id string {id in rm.reservations[h]} :: h != n.hostname ==> (rmHeld(rm, h, id) <==> old(rmHeld(rm, h, id)))
+//@   loop 1 invariant [ids] fresh(updatedIDs) && updatedIDs != nil && (forall id string {id in updatedIDs} :: (id in updatedIDs) <==> ridIn(updated, $i + 1, id))
+//@   loop 1 invariant [untouched] forall id string {id in rm.reservations[n.hostname]} :: rmHeld(rm, n.hostname, id) <==> old(rmHeld(rm, n.hostname, id))
+//@   loop 2 invariant [ids] forall id string {id in updatedIDs} :: (id in updatedIDs) <==> ridInAll(updated, id)
+//@   loop 2 invariant [held] forall id string {id in rm.reservations[n.hostname]} :: rmHeld(rm, n.hostname, id) <==> (old(rmHeld(rm, n.hostname, id)) && !(ridIn(current, $i + 1, id) && !ridInAll(updated, id)))
+//@   loop 2 invariant [capacity] forall id string {rm.capacity[id]} :: rmCap(rm, id) == old(rmCap(rm, id)) + ((old(rmHeld(rm, n.hostname, id)) && !rmHeld(rm, n.hostname, id)) ? 1 : 0)
+//@   loop 2 invariant [keys] forall id string {id in rm.capacity} :: (id in rm.capacity) <==> old(id in rm.capacity)
+//@   loop 2 invariant [others] forall h string, id string {id in rm.reservations[h]} :: h != n.hostname ==> (rmHeld(rm, h, id) <==> old(rmHeld(rm, h, id)))
+
+// offeringsToReserve (the decision taken in CanAdd; nothing is reserved yet).
+// canRes: what CanReserve answers. itsTracked: the candidate instance types are well formed, share nothing with the
+// manager, and every reserved offering's id is known to the manager (it was built from a catalog containing them).
+// Ghosts: sawCompatible = some compatibility test (run for the reserved, available offerings of the candidates
+// against the given requirements) answered true; sawReservable = some CanReserve call answered true.
+//@ pure canRes(rm *ReservationManager, h string, o *cloudprovider.Offering) bool = rmHeld(rm, h, cloudprovider.rid(o)) || rmCap(rm, cloudprovider.rid(o)) > 0
+//@ pure ofsTracked(rm *ReservationManager, ofs []*cloudprovider.Offering) bool = forall b int {ofs[b]} :: (0 <= b && b < len(ofs)) ==> (cloudprovider.ctOK(ofs[b]) && (resOf(ofs[b]) ==> (ofOK(rm, ofs[b]) && (cloudprovider.rid(ofs[b]) in rm.capacity))))
+//@ pure itsTracked(rm *ReservationManager, its []*cloudprovider.InstanceType) bool = forall a int {its[a]} :: (0 <= a && a < len(its)) ==> (its[a] != nil && ofsTracked(rm, its[a].Offerings))
+//@ pure fromIts(its []*cloudprovider.InstanceType, n int, o *cloudprovider.Offering) bool = exists a int {its[a]} :: 0 <= a && a < n && (exists b int {its[a].Offerings[b]} :: 0 <= b && b < len(its[a].Offerings) && its[a].Offerings[b] == o)
+//@ pure ownOfs(s []*cloudprovider.Offering) bool = loc(s) == nil || fresh(s)
+//@ func (*NodeClaim).offeringsToReserve
+//@   prop C17
+//@   requires [rm] rmInv(n.reservationManager)
+//@   requires [reqs] scheduling.rsInv(nodeClaimRequirements)
+//@   requires [catalog] itsTracked(n.reservationManager, instanceTypes)
+//@   modifies nothing
+//@   ghost sawCompatible, sawReservable
+//@   after (Requirements).IsCompatible set sawCompatible = sawCompatible || $r0
+//@   after (*ReservationManager).CanReserve set sawReservable = sawReservable || $r0
+//@   let rm = n.reservationManager
+//@   let gate = (@options.FromContext).FeatureGates.ReservedCapacity
+//@   let strict = n.reservedOfferingMode == ReservedOfferingModeStrict
+//@   site (Requirements).IsCompatible requires [tested] $0 == nodeClaimRequirements && $1 == o.Requirements && resOf(o) && o.Available
+//@   site (*ReservationManager).CanReserve requires [known] $0 == rm && $1 == n.hostname && (cloudprovider.rid($2) in rm.capacity)
+//@   ensures [gateoff] !gate ==> (len(result.0) == 0 && result.1 == nil)
+//@   ensures [strict] (gate && strict && sawCompatible && !sawReservable) ==> (len(result.0) == 0 && IsReservedOfferingError(result.1))
+//@   ensures [strictnarrowed] (gate && strict && len(n.reservedOfferings) != 0 && !sawReservable) ==> (len(result.0) == 0 && IsReservedOfferingError(result.1))
+//@   ensures [errexact] gate ==> ((result.1 != nil) <==> (strict && !sawReservable && (sawCompatible || len(n.reservedOfferings) != 0)))
+//@   ensures [nonempty] gate ==> (sawReservable <==> len(result.0) > 0)
+//@   ensures [elems] forall j int {result.0[j]} :: (0 <= j && j < len(result.0)) ==> (ofOK(rm, result.0[j]) && canRes(rm, n.hostname, result.0[j]) && resOf(result.0[j]) && result.0[j].Available && fromIts(instanceTypes, len(instanceTypes), result.0[j]))
+//@   loop 1 invariant [compat] hasCompatibleOffering == sawCompatible
+//@   loop 1 invariant [reservable] sawReservable <==> len(reservedOfferings) > 0
+//@   loop 1 invariant [own] ownOfs(reservedOfferings)
+//@   loop 1 invariant [elems] forall j int {reservedOfferings[j]} :: (0 <= j && j < len(reservedOfferings)) ==> (ofOK(rm, reservedOfferings[j]) && canRes(rm, n.hostname, reservedOfferings[j]) && resOf(reservedOfferings[j]) && reservedOfferings[j].Available && fromIts(instanceTypes, $i + 1, reservedOfferings[j]))
+//@   loop 2 invariant [compat] hasCompatibleOffering == sawCompatible
+//@   loop 2 invariant [reservable] sawReservable <==> len(reservedOfferings) > 0
+//@   loop 2 invariant [own] ownOfs(reservedOfferings)
+//@   loop 2 invariant [elems] forall j int {reservedOfferings[j]} :: (0 <= j && j < len(reservedOfferings)) ==> (ofOK(rm, reservedOfferings[j]) && canRes(rm, n.hostname, reservedOfferings[j]) && resOf(reservedOfferings[j]) && reservedOfferings[j].Available && fromIts(instanceTypes, $i1 + 2, reservedOfferings[j]))
+
